@@ -119,7 +119,8 @@ def run_property(pid, tier, only=None):
         else:
             violations.append(name)
     # report
-    os.makedirs(os.path.join(ROOT, 'evidence'), exist_ok=True)
+    evdir = os.environ.get('VERIF_EVIDENCE_DIR', os.path.join(ROOT, 'evidence'))
+    os.makedirs(evdir, exist_ok=True)
     os.makedirs(os.path.join(ROOT, 'replays'), exist_ok=True)
     out_lines = []
     for k in known_hit:
@@ -150,7 +151,8 @@ def run_property(pid, tier, only=None):
             'functions_under_contract': fn_info,
             'obligation_instances': sum(len(v) for v in groups.values()),
             'obligations_by_backend': backend_count,
-            'solver_time_s': {'total': round(solver_total, 2), 'slowest': slowest[:10]},
+            'solver_time_s': {'total': round(solver_total, 2), 'slowest': slowest[:10],
+                              'over_5s': [x for x in slowest if x[0] > 5][:40]},
             'refuted_known': [k['obligation'] for k in known_hit],
             'undischarged': violations,
             'vacuity': {'canaries': len(canaries), 'not_refuted': len(canaries) - len(vacuous)},
@@ -165,7 +167,7 @@ def run_property(pid, tier, only=None):
         'wall_s': round(time.time() - t_start, 2),
         'violations': vio_count,
     }
-    with open(os.path.join(ROOT, 'evidence', '%s.json' % pid), 'w') as f:
+    with open(os.path.join(evdir, '%s.json' % pid), 'w') as f:
         json.dump(ev, f, indent=1, default=str)
     for l in out_lines:
         print(l)
